@@ -158,6 +158,8 @@ Emit ==
        IN /\ \A n \in 1..Len(cs) :
                PrintT("CASE " \o ToJson([kind |-> "nest", op |-> item[2], slot |-> item[3], child |-> item[4],
                                           req |-> req, dist |-> cs[n].dist, tree |-> EncTree(cs[n].tree)]))
+          /\ LatentAt(SlotCtx(item[2], item[3]), RootOp(item[4])) =>
+               PrintT("LATENT " \o ToJson([op |-> item[2], slot |-> item[3], child |-> item[4]]))
           /\ (Len(cs) = 0 \/ (req /\ ~cs[1].dist)) =>
                PrintT("NODIST " \o ToJson([op |-> item[2], slot |-> item[3], child |-> item[4], req |-> req, n |-> Len(cs)]))
 Next == ph = 0 /\ ph' = 1 /\ item' = item /\ Emit
@@ -165,5 +167,6 @@ Spec == Init /\ [][Next]_<<item, ph>>
 
 (* the printer's rule (model of javacode.c) is sound for every pair the generator reaches *)
 PrinterSound == item[1] = "nest" => PrinterSoundAt(SlotCtx(item[2], item[3]), RootOp(item[4]))
-(* ... and the requirement itself is not vacuous: see JavaExprGen cfgs (POSTCONDITION-free: counted by the harness) *)
+(* (pairs on which the rule would fail but which the simplifier removes before code generation are exported as      *)
+(*  LATENT lines; how many pairs require parentheses is counted by the harness, so the requirement is not vacuous)   *)
 =============================================================================
